@@ -799,8 +799,9 @@ def main():
     import translate_indx
     import translate_strides
     import translate_missing
+    import translate_driver
     failed = {}
-    ERR = (Unsupported, translate_pyx.Unsupported, translate_walk.Unsupported, translate_eq.Unsupported, translate_indx.Unsupported, translate_strides.Unsupported, translate_missing.Unsupported,
+    ERR = (Unsupported, translate_pyx.Unsupported, translate_walk.Unsupported, translate_eq.Unsupported, translate_indx.Unsupported, translate_strides.Unsupported, translate_missing.Unsupported, translate_driver.Unsupported,
            StopIteration, SyntaxError, KeyError, IndexError, AttributeError)
 
     def piece(name, path, gen, stub_import=None):
@@ -826,6 +827,7 @@ def main():
     piece("strides", "StridesGen.lean", lambda: translate_strides.generate(rd("xcubes.py")), "CatiiModel.Prelude")
     piece("missing_rule", "MissingGen.lean",
           lambda: translate_missing.generate([("ffuncs", rd("ffuncs.py")), ("xfuncs", rd("xfuncs.py"))]), "CatiiModel.Prelude")
+    piece("driver", "DriverGen.lean", lambda: translate_driver.generate(rd("ccubes.py"), rd("xcubes.py")), "CatiiModel.Sched")
     return 3 if failed else 0
 
 
